@@ -45,6 +45,19 @@ def run_witness(w):
                 n = len([e for e in ev if e.startswith(chk['value'])])
                 if n != chk['count']: bad = True; why.append('%d events with prefix %r, required %d' % (n, chk['value'], chk['count']))
         return {'events': ev, 'violates': bad, 'why': why, 'required': w.get('required')}
+    if kind == 'conc':
+        import subprocess
+        r = subprocess.run([replaytool.REPLAY_BIN, 'conc'], input='\n'.join(w['lines']) + '\n', capture_output=True, text=True, timeout=120)
+        out = [l for l in r.stdout.split('\n') if l]
+        bad = any(l.strip() == 'linearizable false' for l in out) or any('BLOCKED' in l for l in out)
+        return {'output': out, 'violates': bad, 'required': w.get('required', 'the concurrent outcome equals one of the two sequential orders (the real code is its own oracle)')}
+    if kind == 'sock':
+        import subprocess
+        r = subprocess.run([replaytool.REPLAY_BIN, 'sock'], input='\n'.join(w['lines']) + '\n', capture_output=True, text=True, timeout=120)
+        out = [l for l in r.stdout.split('\n') if l]
+        got = ''.join(l[5:] for l in out if l.startswith('recv '))
+        bad = got != w['expect_recv']
+        return {'output': out, 'violates': bad, 'required': 'bytes received == ' + w['expect_recv']}
     raise ValueError('unknown witness kind ' + kind)
 
 # ------------------------------------------------------------------------------------------------
